@@ -549,8 +549,36 @@ func runC20(p *Prog, r *Report) {
 				okL = false
 			}
 		}
+		// … unless every use of the field is protected: on the field != nil side of a
+		// test, or after a non-nil assignment in the same function
+		unguarded := ""
+		for _, fn := range compFns {
+			eachInstr(fn, func(in ssa.Instruction) {
+				c := callCommon(in)
+				if c == nil || len(c.Args) == 0 || loadedField(canon(c.Args[0])) != f {
+					return
+				}
+				if guardedBy(in, func(a Atom) bool {
+					m, isNil := nilTestOn(a, isLoadOfField(f))
+					return m && !isNil
+				}) {
+					return
+				}
+				if precededBy(in, func(x ssa.Instruction) bool {
+					st, ok := x.(*ssa.Store)
+					if !ok {
+						return false
+					}
+					fa, ok := st.Addr.(*ssa.FieldAddr)
+					return ok && fieldVar(fa.X.Type(), fa.Field) == f && !isNilConst(st.Val)
+				}) {
+					return
+				}
+				unguarded += " " + p.InstrPos(in) + ";"
+			})
+		}
 		r.Sites++
-		r.Check(okL && lits >= 1, "reuse-typestate.always-set."+w.typ, "R-NILFIELD", "-", fmt.Sprintf("%d construction site(s) of %s all set %s and nothing nils it", lits, w.typ, w.field), w.typ+"."+w.field+" is used without a nil test but can be nil (constructed without it, or set to nil)")
+		r.Check(lits >= 1 && (okL || unguarded == ""), "reuse-typestate.always-set."+w.typ, "R-NILFIELD", "-", fmt.Sprintf("%d construction site(s) of %s all set %s and nothing nils it (or every use is nil-guarded)", lits, w.typ, w.field), w.typ+"."+w.field+" can be nil (constructed without it, or set to nil) and is used without a nil test at:"+unguarded)
 	}
 	// nothing in the package panics
 	np := 0
